@@ -170,6 +170,7 @@ func c01Scenarios(tier string) []*world.Scenario {
 	// multi-key requests that can only be routed in part (one key in an unowned range) are answered locally
 	// while an already routed fragment is still in flight; everything after them must still be answered in order
 	out = append(out, c01Partial(tier)...)
+	out = append(out, c01LocalVariants(tier)...)
 	if tier == "thorough" {
 		for _, p1 := range pipelines(c01Kinds[:5], 2) {
 			for _, p2 := range pipelines(c01Kinds[:5], 2) {
@@ -247,10 +248,83 @@ func c01Partial(tier string) []*world.Scenario {
 	return out
 }
 
+// c01LocalVariants: one request per code path that answers locally (every rejection reason of every decoding branch:
+// default / MGET,DEL / MSET / EVAL,EVALSHA; oversize; AUTH forms), placed between forwarded requests that are still pending
+// and in front of them. The rejected request must consume exactly its own bytes and produce exactly one reply in position.
+func c01LocalVariants(tier string) []*world.Scenario {
+	type lv struct {
+		name string
+		args []string
+		exp  string
+	}
+	big := strings.Repeat("x", 80)
+	vars := []lv{
+		{"eval-1arg", []string{"eval", "return 1"}, world.RErrArgs},
+		{"eval-2args", []string{"EVAL", "return 1", "0"}, world.RErrArgs},
+		{"evalsha-2args", []string{"evalsha", "abcdef", "0"}, world.RErrArgs},
+		{"mset-odd", []string{"mset", "a", "1", "b"}, world.RErrArgs},
+		{"mset-1arg", []string{"MSET", "a"}, world.RErrArgs},
+		{"mget-nokey", []string{"mget"}, world.RErrArgs},
+		{"del-nokey", []string{"del"}, world.RErrArgs},
+		{"get-noarg", []string{"get"}, world.RErrArgs},
+		{"unknown-args", []string{"flushall", "async", "x", "y"}, world.RErrUnknownCmd},
+		{"unknown-long-name", []string{"zrevrangebyscorewithscores", "k", "1", "0"}, world.RErrUnknownCmd},
+		{"auth-2args", []string{"auth", "user", "pw"}, ""},
+		{"ping-arg", []string{"ping", "hello"}, ""},
+		{"oversize-get", []string{"get", big}, world.RErrReqLarge},
+		{"oversize-mget", []string{"mget", "a", big}, world.RErrReqLarge},
+		{"oversize-eval", []string{"eval", big, "1", "k"}, world.RErrReqLarge},
+		{"oversize-unknown", []string{"flushall", big}, ""},
+	}
+	b := 2
+	if tier == "thorough" {
+		b = 3
+	}
+	var out []*world.Scenario
+	for _, v := range vars {
+		r := Req{Kind: "LV-" + v.name, Bytes: world.Cmd(v.args...), Local: true}
+		if v.exp != "" {
+			r.Expect = []byte(v.exp)
+		}
+		shapes := [][]string{{"FA", "L", "FB"}, {"L", "PING", "FA"}}
+		if tier == "thorough" {
+			shapes = append(shapes, []string{"M2", "L", "L", "FA"}, []string{"L", "QUIT"})
+		}
+		for _, sh := range shapes {
+			for _, one := range []bool{true, false} {
+				var reqs []Req
+				var kinds []string
+				for j, k := range sh {
+					if k == "L" {
+						reqs = append(reqs, r)
+						kinds = append(kinds, r.Kind)
+					} else {
+						reqs = append(reqs, c01Req(k, j+3, 0))
+						kinds = append(kinds, k)
+					}
+				}
+				sc := &world.Scenario{Nodes: T3m(), Bound: b, Horizon: 300, Family: "local-variants/1c", MaxLen: 64, ReadCap: 256, WriteCap: 256}
+				sc.Clients = []world.ClientSpec{ClientOf(reqs, one)}
+				sc.Name = fmt.Sprintf("C01/local-variant/%s/%s/one=%v/d%d", v.name, strings.Join(sh, ","), one, b)
+				kk := [][]string{kinds}
+				sc.Check = func(w *world.World) []world.Violation {
+					// variants without a pinned text: exactly one reply in position (any single reply; C17 decides which one)
+					vs := CheckStreams(w, StreamOpts{Kinds: kk, LocalIdx: func(ci, j int) bool {
+						return isLocalKind(kk[ci][j]) || strings.HasPrefix(kk[ci][j], "LV-")
+					}})
+					return append(vs, BackendsWellFormed(w)...)
+				}
+				out = append(out, sc)
+			}
+		}
+	}
+	return out
+}
+
 func init() {
 	register(&Check{
 		ID: "C01", Level: "model_checking",
-		Rule: "every pipeline over the request-kind alphabet {GET@A, GET@B, MGET split A+B, DEL split A+B, PING, AUTH, unknown command, wrong arity, QUIT(last)} up to the tier's length, on 1-3 concurrent clients, whole-pipeline and per-request chunking; configuration variants (two connections per node; password + replica topology); multi-key requests that can only be routed in part (one key in an unowned slot range) at every pipeline position; batches of three replies released by one vectored write to a slow reader under every EAGAIN / short-write answer; for each, every interleaving of client reads, task runs and backend reply deliveries within the deviation bound; an execution is non-trivial when it contains >= 1 deviation from the synchronous default schedule; distinct = distinct observable outcomes (client byte streams + per-node command logs)",
+		Rule: "every pipeline over the request-kind alphabet {GET@A, GET@B, MGET split A+B, DEL split A+B, PING, AUTH, unknown command, wrong arity, QUIT(last)} up to the tier's length, on 1-3 concurrent clients, whole-pipeline and per-request chunking; configuration variants (two connections per node; password + replica topology); multi-key requests that can only be routed in part (one key in an unowned slot range) at every pipeline position; one locally answered request per rejection path of every decoding branch (EVAL/EVALSHA/MSET/MGET/DEL/default arity, long unknown names, oversize of every branch, AUTH/PING with extra arguments) between and in front of pending forwarded requests; batches of three replies released by one vectored write to a slow reader under every EAGAIN / short-write answer; for each, every interleaving of client reads, task runs and backend reply deliveries within the deviation bound; an execution is non-trivial when it contains >= 1 deviation from the synchronous default schedule; distinct = distinct observable outcomes (client byte streams + per-node command logs)",
 		Scenarios: c01Scenarios, BudgetQuick: 90, BudgetThorough: 1200,
 		Assumptions: []string{"simulated kernel (vsys) models Linux nonblocking sockets + level-triggered epoll", "stateless node model: replies are a function of the command and embed the key"},
 	})
